@@ -1,4 +1,5 @@
-(* Property C08 — model, part 5 (used by the tie only, no theorem of C08 depends on it):
+(* Property C08 — model, part 5 (tablet payload, cached metadata, typed rows and typed tuple targets; the
+   theorems C08_tablet_roundtrip, C08_cached_rows_roundtrip, C08_typed_cell_roundtrip are about the functions here):
    - typed deserialisation of the rows (`rows_iter::<Row>()`, Row = Vec<Option<CqlValue>>) through
      the model of `<CqlValue as DeserializeValue>::deserialize` of property C01 (Model/Cql.v);
      C08 compares only WHETHER and WHERE it fails — contents are C01's subject;
